@@ -72,8 +72,8 @@ func (s wfScope) clone() wfScope {
 
 type wfCont struct {
 	end  func(ind int, sc wfScope) // the statement list is exhausted
-	cont string                   // `continue` ("" outside a loop)
-	brk  string                   // `break`
+	cont string                    // `continue` ("" outside a loop)
+	brk  string                    // `break`
 }
 
 type wf struct {
